@@ -43,6 +43,13 @@ fn case<S: Shape>(r: &mut Rng, acc: &mut Acc, index: u64, verbose: bool) {
     let vs = S::from_vals(&v);
     let (a_one, mut b_one) = (S::build_tl(&spec), S::build_tl(&spec));
     let (a_m, mut b_m) = (to_merged::<S>(S::build_tl(&spec)), to_merged::<S>(S::build_tl(&spec)));
+    // one third of the cases: an earlier, different start_with first — the latest one must fully win
+    let earlier = r.chance(1, 3);
+    if earlier {
+        let v0: Vec<f64> = S::KINDS.iter().map(|k| gen_value(r, *k)).collect();
+        b_one.start_with(&S::from_vals(&v0));
+        b_m.start_with(&S::from_vals(&v0));
+    }
     b_one.start_with(&vs);
     b_m.start_with(&vs);
     let eval_a = |t: f32| {
@@ -125,7 +132,7 @@ fn case<S: Shape>(r: &mut Rng, acc: &mut Acc, index: u64, verbose: bool) {
                     case(t, f, clause),
                 );
             } else if v[f] != fr[0].val {
-                acc.sig(format!("{}|{}|{clause}|merged={merged}", spec.kind_name(), m.class()));
+                acc.sig(format!("{}|{}|{clause}|merged={merged}|earlier-start_with={earlier}", spec.kind_name(), m.class()));
                 if !sampled && clause == "identical-to-plain-twin" && m.phase == Phase::Active {
                     sampled = true;
                     acc.sample(3, || case(t, f, clause));
